@@ -45,6 +45,11 @@ fn check_one(kind: Kind, n: usize, st: &mut Stats) -> Result<(), String> {
         }
         st.class("after_failed_finish_attempt");
     }
+    check_on(&mut s, kind, chunked, n, st)
+}
+
+/// The questions and the promised write on a flow in the body state, whatever was written on it before.
+fn check_on(s: &mut Sender, kind: Kind, chunked: bool, n: usize, st: &mut Stats) -> Result<(), String> {
     let m = s.max_input(n).unwrap();
     if m > n {
         return Err(format!("calculate_max_input({}) = {} exceeds n", n, m));
@@ -244,6 +249,49 @@ fn exec_query_pairs(t: &mut Tape, st: &mut Stats) -> Result<(), String> {
     Ok(())
 }
 
+/// Stage 'after_history': one to four earlier writes on the same flow - mostly into a buffer of the very length that is asked about
+/// next, each shorter than what was advertised for it (or exactly that) - and then the question and the promised write. Nothing a
+/// previous call left behind (a remembered fit, a remembered overhead) may make the advertised amount not fit.
+fn exec_history(t: &mut Tape, st: &mut Stats) -> Result<(), String> {
+    let kind = kind_of([0usize, 2, 9, 4, 1, 13][t.below(6)]);
+    let n = match t.weighted(&[4, 2, 2, 1]) {
+        0 => t.range(6, 80),
+        1 => t.range(80, 5_000),
+        2 => [16 + 6, 256 + 7, 4_096 + 8, 10_248, 2 * 10_248][t.below(5)] + t.below(24) - 12,
+        _ => t.range(5_000, 40_000),
+    };
+    let mut s = Sender::new(Api::Flow, kind)?;
+    let chunked = s.is_chunked().unwrap();
+    let steps = t.range(1, 4);
+    let mut shorts = 0;
+    for i in 0..steps {
+        let out_n = if t.below(4) != 0 { n } else { t.range(0, 2 * n + 16) };
+        let cap = s.max_input(out_n).unwrap();
+        if cap == 0 {
+            continue;
+        }
+        let len = match t.below(3) {
+            0 => cap,
+            1 => 1 + t.below(cap.min(20)),
+            _ => 1 + t.below(cap),
+        };
+        if len < cap {
+            shorts += 1;
+        }
+        let (c, _p) = with_out(out_n, |out| s.write(&pattern()[..len], out))
+            .map_err(|e| format!("history write #{} ({} bytes into {}) failed: {:?}", i, len, out_n, e))?;
+        if c != len {
+            return Err(format!("history write #{}: {} bytes (advertised {}) into {} bytes consumed {}", i, len, cap, out_n, c));
+        }
+    }
+    if shorts > 0 && chunked {
+        st.class("after_short_write");
+        st.count_nontrivial(1);
+    }
+    st.class("after_history");
+    check_on(&mut s, kind, chunked, n, st)
+}
+
 fn exec_enum(t: &mut Tape, st: &mut Stats) -> Result<(), String> {
     let k = t.below(4);
     let n = t.below(ENUM_MAX as usize + 1);
@@ -286,7 +334,7 @@ HTTP/1.0, caller-supplied framing in unusual legal shapes rotating with n (Trans
 Content-Length of 3, codings on two lines next to a Content-Length, the body state reached through Await100 with and without the interim 100, framing added with Flow::header() before send-body-despite-method, SendRequest::write called again after the head was complete), every fourth case after a finishing attempt that found no room (buffer 0..4: nothing emitted, body not finished); plus calculate_max_input(n) == n on a 1000-byte declared length, fresh and after 300..999 bytes were sent} on a Flow in the \
 body state: m = calculate_max_input(n) must satisfy m <= n, m(n-1) <= m(n), m == n when not chunked, and \
 one write of m pattern bytes into an n-byte buffer must consume exactly m and decode (strict chunk decoder / \
-identity) to that input. enumeration 'query_pairs' (768): two questions in a row on one flow over a menu of 16 lengths up to 2^40 (asking needs no buffer), answers must not exceed n, must equal a fresh flow's and be monotone; the promised write is performed when the second length is <= 1 MiB. random: n up to 2^22 biased to multiples of the chunk unit, sixteen body kinds. \
+identity) to that input. enumeration 'query_pairs' (768): two questions in a row on one flow over a menu of 16 lengths up to 2^40 (asking needs no buffer), answers must not exceed n, must equal a fresh flow's and be monotone; the promised write is performed when the second length is <= 1 MiB. random: n up to 2^22 biased to multiples of the chunk unit, sixteen body kinds. random 'after_history': the question and the promised write after one to four earlier writes on the same flow (three in four into a buffer of the same length, each the advertised amount or shorter), n in 6..40 000 biased to small buffers and hex-digit boundaries. \
 non-trivial = m > 0 and n within 16 of a hex-digit boundary (16^k + overhead) or of a multiple of \
 chunk+overhead; distinct by (n, chunked).",
     assumptions: &[
@@ -315,6 +363,11 @@ chunk+overhead; distinct by (n, chunked).",
         cases: |t: Tier| t.pick(100_000, 1_000_000),
         tape_len: 8,
         exec: Some(exec_random),
+    }, RandomDef {
+        name: "after_history",
+        cases: |t: Tier| t.pick(150_000, 2_000_000),
+        tape_len: 24,
+        exec: Some(exec_history),
     }],
     extra: None,
 };
